@@ -191,6 +191,18 @@ def simulate(fn, call_ins, v, stop_calls=(), max_steps=4000, seed=None, start=No
             if c is None:
                 return None
             return arith(d.ops[1] if c else d.ops[2], env, depth + 1)
+        if d.op in ('add', 'sub', 'mul', 'shl', 'lshr', 'ashr', 'and', 'or', 'xor') and re.match(r'i\d+$', d.ty or '') and d.ty != 'i1':
+            a_, b_ = arith(d.ops[0], env, depth + 1), arith(d.ops[1], env, depth + 1)
+            if a_ is None or b_ is None:
+                return None
+            from .consteval import wrap as _wr, width_of as _wo
+            w_ = _wo(d.ty)
+            if d.op in ('shl', 'lshr', 'ashr') and not 0 <= b_ < w_:
+                return None
+            ua = a_ & ((1 << w_) - 1)
+            x_ = {'add': a_ + b_, 'sub': a_ - b_, 'mul': a_ * b_, 'shl': a_ << b_ if d.op == 'shl' else 0, 'lshr': ua >> b_ if d.op == 'lshr' else 0,
+                  'ashr': a_ >> b_ if d.op == 'ashr' else 0, 'and': a_ & b_, 'or': a_ | b_, 'xor': a_ ^ b_}[d.op]
+            return _wr(x_, w_)
         return None
     while stack:
         b, i0, env, trail = stack.pop()
@@ -202,7 +214,7 @@ def simulate(fn, call_ins, v, stop_calls=(), max_steps=4000, seed=None, start=No
         for ins in b.insts[i0:]:
             if call_ins is not None and ins is call_ins and not (start is not None and steps == 1):
                 hit = ('reexec', None, trail); break
-            if ins.res and ins.op in ('sext', 'zext', 'trunc', 'select') or (ins.op == 'sub' and ins.res):
+            if ins.res and ins.op in ('sext', 'zext', 'trunc', 'select', 'add', 'sub', 'mul', 'shl', 'lshr', 'ashr', 'and', 'or', 'xor'):
                 x = arith(ins.res, env)
                 if x is not None:
                     env[ins.res] = x
